@@ -104,7 +104,7 @@ theorem genCfg_good (cd : Codec) (h1 : ∀ x, cd.dec (cd.enc x) = some x)
     hs5 := by decide, max_pos := by decide }
 
 /-- the assumptions are satisfiable: the identity codec -/
-example : Good genCfg ⟨id, some⟩ :=
+example : Good genCfg { enc := id, dec := some } :=
   genCfg_good _ (fun _ => rfl) (fun x => by simp only [maxEncodedLen, id]; omega)
 
 theorem maxEncodedLen_mono {a b : Nat} (h : a ≤ b) : maxEncodedLen a ≤ maxEncodedLen b := by
@@ -304,7 +304,7 @@ theorem stream_identity {cfg : FrameCfg} {cd : Codec} (g : Good cfg cd) (writes 
     · exact Or.inr ⟨he, by rw [ho, pending, List.nil_append, hflat]⟩
 
 /-- non-vacuity: a 3-byte write read back with 2-byte buffers through the model, identity codec -/
-example : (readMany genCfg ⟨id, some⟩ { recvBuffer := [], wire := wireOfWrites genCfg ⟨id, some⟩ [[1, 2, 3]] } [2, 2, 2]).2
+example : (readMany genCfg { enc := id, dec := some } { recvBuffer := [], wire := wireOfWrites genCfg { enc := id, dec := some } [[1, 2, 3]] } [2, 2, 2]).2
     = ([1, 2, 3], some .eof) := by decide
 
 /-! ## 2. mux -/
